@@ -17,4 +17,4 @@ data = {"_reference_commit": head}
 data.update(canon.baseline_of(ix.modules))
 with open(canon.BASELINE_FILE, "w", encoding="utf-8") as f:
   json.dump(data, f, indent=0, sort_keys=True)
-print("baseline for", len(data) - 1, "modules,", sum(len(v) for k, v in data.items() if not k.startswith("_")), "functions at", head[:8])
+print("baseline for", len([k for k in data if not k.startswith("_")]), "modules,", sum(len(v) for k, v in data.items() if not k.startswith("_")), "functions at", head[:8])
